@@ -29,6 +29,8 @@ TRUSTED = [
     "C++ memory model, std::mutex / std::condition_variable semantics and OS scheduling are not modelled: the harness "
     "runs everything on one thread and replaces the wait by a scripted one (verif_hooks.h); atomic steps = mutex sections",
     "real OS timing: no bound on lateness is claimed or checkable; data races are outside the model (TSan not run)",
+    "the guarded hook block in advance_realtime repeats the duration expression and the break/continue of the "
+    "condition.wait_for statement it stands in for; those four production lines are bypassed under the harness",
     "the graph below the loop is the scripted one of the harness; arbitrary graphs rely on C02 (armed slots are honoured, "
     "next_scheduled_time is the earliest armed slot) and C18 (the node scheduler arms the earliest pending event)",
 ]
